@@ -391,7 +391,7 @@ Proof. intros G. pose proof (gp_addr p G). destruct G as [[? ?] [? ?]]. auto. Qe
 Lemma pow_facts : 2 ^ 44 + 2 ^ 41 < 2 ^ 60 /\ 2 ^ 44 + 2 ^ 41 < 2 ^ 64 /\ 0 < 2 ^ 40 /\ 2 ^ 40 * 2 = 2 ^ 41 /\ 2 ^ 44 = 2 ^ 32 * 4096.
 Proof. repeat split; reflexivity. Qed.
 
-Lemma wdc_some d p cb so n bs :
+Lemma wdc_some d p cb so n (bs : list Z) :
   gp p -> 0 < cb < 2 ^ 40 -> 0 <= so -> 0 <= n -> so + n <= cb ->
   exists d', write_data_chunk cf fa d p cb so n (Some bs) = (Ok tt, d') /\
     holds d' (addr p) tag_DaTa /\ holds d' (addr p + 4) (dp_enc fa (pnorm (addr p + HDR + cb))) /\
@@ -1226,7 +1226,7 @@ Proof.
   apply pnorm_addr. apply G.
 Qed.
 
-Lemma rewrite_chunk d c so n bs : chunk_at d c -> 0 <= so -> 0 <= n -> so + n <= csize c ->
+Lemma rewrite_chunk d c so n (bs : list Z) : chunk_at d c -> 0 <= so -> 0 <= n -> so + n <= csize c ->
   exists d', write_data_chunk cf fa d (fst c) (csize c) so n (Some bs) = (Ok tt, d') /\ chunk_at d' c /\
     holds d' (cstart c + HDR + so) (firstn (Z.to_nat n) bs) /\
     (forall x, ~ (cstart c <= x < cstart c + HDR) -> ~ (cstart c + HDR + so <= x < cstart c + HDR + so + n) ->
@@ -1241,7 +1241,7 @@ Proof.
 Qed.
 
 (* the same with the zero fill, used only on new chunks; stated for any pointer *)
-Lemma fresh_chunk d p cb so n (data : option bytes) : gp p -> addr p < 2 ^ 43 -> 0 < cb < 2 ^ 40 -> 0 <= so -> 0 < n -> so + n <= cb ->
+Lemma fresh_chunk d p cb so n (data : option (list Z)) : gp p -> addr p < 2 ^ 43 -> 0 < cb < 2 ^ 40 -> 0 <= so -> 0 < n -> so + n <= cb ->
   let c := (p, pnorm (addr p + HDR + cb)) in
   exists d', write_data_chunk cf fa d p cb so n data = (Ok tt, d') /\ chunk_at d' c /\ csize c = cb /\
     holds d' (addr p + HDR + so) (match data with Some bs => firstn (Z.to_nat n) bs | None => zeros n end) /\
@@ -1359,7 +1359,7 @@ Proof.
   - intros [H|(c' & I & H)]; [exists c; split; [left|]; auto|exists c'; split; [right|]; auto].
 Qed.
 
-Lemma wall_loop_ok : forall suf d data total, Forall (chunk_at d) suf -> pdisj (map ext suf) -> 0 < total -> total <= lenZ data ->
+Lemma wall_loop_ok : forall suf d (data : list Z) total, Forall (chunk_at d) suf -> pdisj (map ext suf) -> 0 < total -> total <= lenZ data ->
   let m := Z.min total (cap_of suf) in
   exists d', wall_loop cf fa suf d data total = (Ok (skipn (Z.to_nat m) data, total - m), d') /\
     Forall (chunk_at d') suf /\ frame d d' (in_exts suf) /\
@@ -1370,7 +1370,7 @@ Proof.
     exists d. rewrite Z.sub_0_r. split; [reflexivity|]. split; [constructor|]. split; [apply frame_refl|reflexivity].
   - inversion C as [|? ? Hc Cr]; subst. pose proof (chunk_at_gp _ _ Hc) as (_ & _ & S).
     pose proof (sizes_pos_cap _ (Forall_chunk_sizes _ _ Cr)) as Hr. pose proof PD as PDall. destruct PD as [PD1 PDr].
-    cbn [wall_loop]. rewrite Hwall. set (cur := Z.min (csize c) total).
+    cbn [wall_loop]. rewrite Hwall. unfold bytes in *. set (cur := Z.min (csize c) total).
     assert (Hcur : cur = Z.min (csize c) total) by reflexivity. clearbody cur.
     destruct (rewrite_chunk d c 0 cur data Hc) as (d1 & R1 & C1 & H1 & F1); try lia.
     rewrite R1. cbn [bindR]. assert (Em0 : m = Z.min total (csize c + cap_of r)) by reflexivity. clearbody m.
@@ -1451,4 +1451,554 @@ Lemma inv_single ty dims d c : chunk_at d c -> csize c mod esz ty = 0 -> 0 < esz
 Proof.
   intros C M Z0. unfold Inv. cbn [h_n h_ty h_dc map pdisj]. split; [reflexivity|]. split; [constructor; auto|].
   split; [split; auto; constructor|]. split; [constructor; auto|]. split; auto.
+Qed.
+
+(* ------------------------------------------------------------------ adding a second chunk and a table (all three writers) *)
+Definition grow1_term {A} (al : list ptr) (d1 : disk) (dc : ptr) (tot' : Z) (W : disk -> ptr -> R unit)
+           (K : list (ptr * ptr) -> ptr -> disk -> R A) : R A :=
+  bindR (alloc al (tot' + TAG_SIZE + TAG_SIZE + DPS) d1) (fun pa d2 =>
+  let p2 := fst pa in
+  bindR (W d2 p2) (fun _ d3 =>
+  bindR (alloc (snd pa) (2 * TAG_SIZE + 5 * DPS) d3) (fun pb d4 =>
+  let pt := fst pb in
+  bindO (two_entries fa d4 dc p2) d4 (fun es =>
+  bindR (write_table fa d4 pt es) (fun _ d5 => K es pt d5))))).
+
+(* what the write into the new chunk must do (ADFI_write_data_chunk on a fresh region, any payload) *)
+Definition wspec (W : disk -> ptr -> R unit) (size : Z) : Prop :=
+  forall d2 p2, gp p2 -> addr p2 < 2 ^ 43 ->
+  exists d3, W d2 p2 = (Ok tt, d3) /\ chunk_at d3 (p2, pnorm (addr p2 + HDR + size)) /\
+             csize (p2, pnorm (addr p2 + HDR + size)) = size /\
+             same_out d2 d3 (addr p2) (addr p2 + HDR + size + 4).
+
+Lemma disj_sym a b : disj a b -> disj b a.
+Proof. unfold disj. tauto. Qed.
+
+Lemma grow1_ok {A} ty dims al d1 c tot' W (K : list (ptr * ptr) -> ptr -> disk -> R A) :
+  chunk_at d1 c -> 0 < esz ty -> csize c mod esz ty = 0 -> tot' mod esz ty = 0 -> 0 < tot' < 2 ^ 40 ->
+  wspec W tot' -> fresh [ext c] al [tot' + 20; 68] = true ->
+  exists p2 pt rest d2 d3 d5, al = p2 :: pt :: rest /\
+    let c2 := (p2, pnorm (addr p2 + HDR + tot')) in
+    gp p2 /\ addr p2 < 2 ^ 43 /\
+    W d2 p2 = (Ok tt, d3) /\
+    same_out d1 d2 (addr p2) (addr p2 + tot' + 20) /\ same_out d2 d3 (addr p2) (addr p2 + tot' + 20) /\
+    same_out d3 d5 (addr pt) (addr pt + 68) /\
+    disj (ext c) (ext c2) /\ disj (text pt 2) (ext c) /\ disj (text pt 2) (ext c2) /\ cend c2 + 4 = addr p2 + tot' + 20 /\
+    grow1_term al d1 (fst c) tot' W K = K [c; c2] pt d5 /\
+    Inv (mkHdr ty dims 2 pt) d5 [c; c2] /\ csize c2 = tot'.
+Proof.
+  intros C1 Z0 M1 M2 Ht WS F.
+  destruct al as [|p2 al']; [exfalso; eapply fresh_nil_sizes; eauto|].
+  apply fresh_cons_inv in F. destruct F as [(G2 & A2 & D2) F].
+  destruct al' as [|pt rest]; [exfalso; eapply fresh_nil_sizes; eauto|].
+  apply fresh_cons_inv in F. destruct F as [(Gt & At & Dt) _].
+  inversion D2 as [|? ? D2c _]; subst. inversion Dt as [|? ? Dt2 Dt']; subst. inversion Dt' as [|? ? Dtc _]; subst.
+  cbn [fst snd ext] in D2c, Dt2, Dtc.
+  assert (P40 : 2 ^ 40 + 20 <= MAXSZ) by (unfold MAXSZ; lia).
+  destruct (alloc_ok_step p2 (pt :: rest) (tot' + 20) d1) as [R2 S12]; [lia|auto|].
+  set (d2 := dclr d1 (addr p2) (Z.to_nat (tot' + 20))) in *.
+  destruct (WS d2 p2 G2 A2) as (d3 & RW & C3 & Sz & S23).
+  set (c2 := (p2, pnorm (addr p2 + HDR + tot'))) in *.
+  assert (Ec2 : cend c2 = addr p2 + HDR + tot') by (unfold cend, c2; cbn [snd]; apply addr_pnorm).
+  assert (Es2 : cstart c2 = addr p2) by reflexivity.
+  destruct (alloc_ok_step pt rest 68 d3) as [Rt S34]; [unfold MAXSZ; lia|auto|].
+  set (d4 := dclr d3 (addr pt) (Z.to_nat 68)) in *.
+  pose proof C1 as (Gc1 & Gc2 & Sc & _). pose proof (csize_addr c) as Ecs. unfold HDR in *.
+  assert (C4c : chunk_at d4 c).
+  { apply (chunk_at_same_out d3 d4 c _ _ (chunk_at_same_out d2 d3 c _ _ (chunk_at_same_out d1 d2 c _ _ C1 S12 ltac:(lia)) S23 ltac:(lia)) S34). lia. }
+  assert (C4c2 : chunk_at d4 c2) by (apply (chunk_at_same_out d3 d4 c2 _ _ C3 S34); lia).
+  destruct (write_table_ok d4 pt [c; c2]) as (d5 & RT & T5 & S45); auto.
+  { constructor; [split; auto|]. constructor; [|constructor]. destruct C3 as (? & ? & _). split; auto. }
+  { change (lenZ [c; c2]) with 2. assert (2 ^ 43 + 100 < 2 ^ 44) by reflexivity. lia. }
+  change (lenZ [c; c2]) with 2 in S45. replace (addr pt + 20 + 24 * 2) with (addr pt + 68) in S45 by ring.
+  exists p2, pt, rest, d2, d3, d5. split; [reflexivity|]. cbn zeta. fold c2.
+  split; [exact G2|]. split; [exact A2|]. split; [exact RW|]. split; [eapply same_out_weaken; [exact S12|lia|lia]|].
+  split; [eapply same_out_weaken; [exact S23|lia|lia]|].
+  split; [eapply same_out_trans; [eapply same_out_weaken; [exact S34|lia|lia]|exact S45]|].
+  assert (Dc : disj (ext c) (ext c2)) by (unfold disj, ext; cbn [fst snd]; lia).
+  assert (Dt1 : disj (text pt 2) (ext c)) by (unfold disj, ext, text; cbn [fst snd]; lia).
+  assert (Dt2' : disj (text pt 2) (ext c2)) by (unfold disj, ext, text; cbn [fst snd]; lia).
+  split; [exact Dc|]. split; [exact Dt1|]. split; [exact Dt2'|]. split; [lia|].
+  split.
+  - unfold grow1_term, TAG_SIZE, DPS. replace (tot' + 4 + 4 + 12) with (tot' + 20) by ring.
+    rewrite R2. cbn [bindR fst snd]. rewrite RW. cbn [bindR]. change (2 * 4 + 5 * 12) with 68. rewrite Rt. cbn [bindR fst snd].
+    change p2 with (fst c2) at 1. rewrite (two_entries_ok d4 c c2) by auto. cbn [bindO]. rewrite RT. reflexivity.
+  - split; [|exact Sz].
+    assert (C5c : chunk_at d5 c) by (apply (chunk_at_same_out d4 d5 c _ _ C4c S45); lia).
+    assert (C5c2 : chunk_at d5 c2) by (apply (chunk_at_same_out d4 d5 c2 _ _ C4c2 S45); lia).
+    unfold Inv. cbn [h_n h_ty h_dc]. split; [reflexivity|]. split; [constructor; [exact C5c|constructor; [exact C5c2|constructor]]|].
+    split; [cbn [map pdisj]; split; [constructor; [exact Dc|constructor]|split; [constructor|exact I]]|].
+    split; [constructor; [exact M1|constructor; [rewrite Sz; exact M2|constructor]]|]. split; [auto|].
+    split; [exact T5|]. cbn [map]. constructor; [exact Dt1|constructor; [exact Dt2'|constructor]].
+Qed.
+
+(* ------------------------------------------------------------------ appending a chunk to a table (all three writers) *)
+Definition grown_term {A} (al : list ptr) (d1 : disk) (h : hdr) (tb : list (ptr * ptr)) (tot' : Z)
+           (W : disk -> ptr -> R unit) (K : list (ptr * ptr) -> ptr -> disk -> R A) : R A :=
+  bindR (alloc al (2 * TAG_SIZE + DPS + tot') d1) (fun pa d2 =>
+  let p := fst pa in
+  bindO (new_entry_end p tot') d2 (fun e =>
+  bindR (alloc (snd pa) (2 * TAG_SIZE + (2 * (h_n h + 1) + 1) * DPS) d2) (fun pb d3 =>
+  let pt := fst pb in
+  bindR (write_table fa d3 pt (tb ++ [(p, e)])) (fun _ d4 =>
+  bindR (W d4 p) (fun _ d5 =>
+  bindR (file_free fa d5 (h_dc h)) (fun _ d6 => K (tb ++ [(p, e)]) pt d6)))))).
+
+Lemma pdisj_snoc l x : pdisj l -> Forall (fun e => disj e x) l -> pdisj (l ++ [x]).
+Proof.
+  induction l as [|a r IH]; intros P F; cbn [app pdisj].
+  - split; [constructor|exact I].
+  - destruct P as [P1 P2]. inversion F as [|? ? Fa Fr]; subst. split; [|auto].
+    apply Forall_app. split; [exact P1|constructor; [exact Fa|constructor]].
+Qed.
+
+Lemma lenZ_snoc {A} (l : list A) x : lenZ (l ++ [x]) = lenZ l + 1.
+Proof. rewrite lenZ_app. reflexivity. Qed.
+
+Lemma grown_ok {A} al d1 h cs tot' W (K : list (ptr * ptr) -> ptr -> disk -> R A) :
+  h_n h = lenZ cs -> 2 <= lenZ cs -> lenZ cs < 2 ^ 20 -> Forall (chunk_at d1) cs -> pdisj (map ext cs) ->
+  table_at d1 (h_dc h) cs -> Forall (disj (text (h_dc h) (lenZ cs))) (map ext cs) ->
+  0 < esz (h_ty h) -> Forall (fun c => csize c mod esz (h_ty h) = 0) cs -> tot' mod esz (h_ty h) = 0 -> 0 < tot' < 2 ^ 40 ->
+  wspec W tot' ->
+  fresh (map ext cs ++ [text (h_dc h) (lenZ cs)]) al [tot' + 20; 8 + (2 * (lenZ cs + 1) + 1) * 12] = true ->
+  exists p pt rest d4 d5 d6, al = p :: pt :: rest /\
+    let c' := (p, pnorm (addr p + HDR + tot')) in
+    gp p /\ addr p < 2 ^ 43 /\ W d4 p = (Ok tt, d5) /\ csize c' = tot' /\
+    frame d1 d4 (fun x => addr p <= x < addr p + tot' + 20 \/ addr pt <= x < addr pt + 20 + 24 * (lenZ cs + 1)) /\
+    same_out d4 d5 (addr p) (addr p + tot' + 20) /\
+    same_out d5 d6 (addr (h_dc h)) (addr (h_dc h) + 20 + 24 * lenZ cs) /\
+    Forall (fun e => disj e (ext c')) (map ext cs) /\ disj (text (h_dc h) (lenZ cs)) (ext c') /\
+    Forall (disj (text pt (lenZ cs + 1))) (map ext cs) /\
+    cend c' + 4 = addr p + tot' + 20 /\
+    grown_term al d1 h cs tot' W K = K (cs ++ [c']) pt d6 /\
+    Inv (mkHdr (h_ty h) (h_dims h) (h_n h + 1) pt) d6 (cs ++ [c']).
+Proof.
+  intros N L2 Lb C1 PD T1 TD Z0 Dv M2 Ht WS F. pose proof (lenZ_nonneg cs) as Hn.
+  destruct al as [|p al']; [exfalso; eapply fresh_nil_sizes; eauto|].
+  apply fresh_cons_inv in F. destruct F as [(Gp & Ap & Dp) F].
+  destruct al' as [|pt rest]; [exfalso; eapply fresh_nil_sizes; eauto|].
+  apply fresh_cons_inv in F. destruct F as [(Gt & At & Dt) _].
+  apply Forall_app in Dp. destruct Dp as [Dpc Dpt]. inversion Dpt as [|? ? Dpo _]; subst.
+  inversion Dt as [|? ? Dtn Dt']; subst. apply Forall_app in Dt'. destruct Dt' as [Dtc Dtt]. inversion Dtt as [|? ? Dto _]; subst.
+  cbn [fst snd text] in Dpo, Dtn, Dto. set (n := lenZ cs) in *. set (dc := h_dc h) in *.
+  assert (P40 : 2 ^ 40 + 20 <= MAXSZ /\ 2 ^ 43 + 2 ^ 40 + 100 < 2 ^ 44 /\ 2 ^ 43 + 24 * 2 ^ 20 + 100 < 2 ^ 44 /\ 100 + 24 * 2 ^ 20 <= MAXSZ) by (unfold MAXSZ; lia).
+  destruct P40 as (Q1 & Q2 & Q3 & Q4).
+  set (szt := 8 + (2 * (n + 1) + 1) * 12) in *. assert (Eszt : szt = 20 + 24 * (n + 1)) by (unfold szt; ring).
+  destruct (alloc_ok_step p (pt :: rest) (tot' + 20) d1) as [R2 S12]; [lia|auto|].
+  set (d2 := dclr d1 (addr p) (Z.to_nat (tot' + 20))) in *.
+  destruct (gp_nonneg p Gp) as (Hpb & Hpo & Hpa). pose proof (addr_unfold p) as Epa. pose proof pow_facts as (P1 & _).
+  set (e := pnorm (addr p + HDR + tot')). set (c' := (p, e)).
+  assert (Re : new_entry_end p tot' = Ok e).
+  { unfold new_entry_end, TAG_SIZE, DPS. rewrite adjust_ok by lia. unfold e, HDR. do 2 f_equal. lia. }
+  assert (Ge : gp e) by (apply gp_pnorm; unfold HDR; lia).
+  assert (Ec' : cend c' = addr p + HDR + tot') by (unfold cend, c', e; cbn [snd]; apply addr_pnorm).
+  assert (Es' : cstart c' = addr p) by reflexivity.
+  destruct (alloc_ok_step pt rest szt d2) as [Rt S23]; [lia|auto|].
+  set (d3 := dclr d2 (addr pt) (Z.to_nat szt)) in *.
+  assert (PG : ptrs_gp (cs ++ [c'])).
+  { apply Forall_app. split; [apply (Forall_chunk_ptrs d1); auto|]. constructor; [split; auto|constructor]. }
+  destruct (write_table_ok d3 pt (cs ++ [c'])) as (d4 & RT & T4 & S34); auto.
+  { rewrite lenZ_snoc. fold n. lia. }
+  rewrite lenZ_snoc in S34. fold n in S34.
+  destruct (WS d4 p Gp Ap) as (d5 & RW & C5 & Sz & S45). fold e in C5, Sz, S45. fold c' in C5, Sz.
+  unfold HDR in *.
+  (* the old table is still there *)
+  assert (T5 : table_at d5 dc cs).
+  { apply (table_at_frame d1 d5 dc cs (fun x => addr p <= x < addr p + tot' + 20 \/ addr pt <= x < addr pt + szt)); auto.
+    - intros x Hx. rewrite S45, S34, S23, S12; auto; lia.
+    - fold n. intros x Hx. lia. }
+  destruct (file_free_table d5 dc cs T5) as (d6 & RF & S56). fold n in S56.
+  exists p, pt, rest, d4, d5, d6. split; [reflexivity|]. cbn zeta. fold e. fold c'.
+  split; [exact Gp|]. split; [exact Ap|]. split; [exact RW|]. split; [exact Sz|].
+  split.
+  { intros x Hx. rewrite S34, S23, S12; auto; lia. }
+  split; [eapply same_out_weaken; [exact S45|lia|lia]|]. split; [exact S56|].
+  assert (Dc' : Forall (fun x => disj x (ext c')) (map ext cs)).
+  { eapply Forall_impl; [|exact Dpc]. intros x Hx. cbn beta in Hx. unfold disj, ext. cbn [fst snd]. lia. }
+  assert (Do' : disj (text dc n) (ext c')) by (unfold disj, ext, text; cbn [fst snd]; lia).
+  assert (Dtc' : Forall (disj (text pt (n + 1))) (map ext cs)).
+  { eapply Forall_impl; [|exact Dtc]. intros x Hx. cbn beta in Hx. unfold disj, text. cbn [fst snd]. lia. }
+  split; [exact Dc'|]. split; [exact Do'|]. split; [exact Dtc'|]. split; [lia|].
+  split.
+  - unfold grown_term, TAG_SIZE, DPS. replace (2 * 4 + 12 + tot') with (tot' + 20) by ring.
+    rewrite R2. cbn [bindR fst snd]. rewrite Re. cbn [bindO]. rewrite N. fold n.
+    replace (2 * 4 + (2 * (n + 1) + 1) * 12) with szt by (unfold szt; ring). rewrite Rt. cbn [bindR fst snd].
+    fold c'. rewrite RT. cbn [bindR]. rewrite RW. cbn [bindR]. fold dc. rewrite RF. reflexivity.
+  - (* the new invariant *)
+    assert (C6 : Forall (chunk_at d6) (cs ++ [c'])).
+    { apply Forall_app. split.
+      - rewrite Forall_forall in *. intros c Ic. specialize (C1 c Ic).
+        specialize (Dpc (ext c) (in_map ext _ _ Ic)). specialize (Dtc (ext c) (in_map ext _ _ Ic)). specialize (TD (ext c) (in_map ext _ _ Ic)).
+        unfold disj, ext, text in *. cbn [fst snd] in *.
+        apply (chunk_at_frame d1 d6 c (fun x => addr p <= x < addr p + tot' + 20 \/ addr pt <= x < addr pt + szt \/ addr dc <= x < addr dc + 20 + 24 * n)); auto.
+        + intros x Hx. rewrite S56, S45, S34, S23, S12; auto; lia.
+        + unfold in_ext. intros x Hx. lia.
+      - constructor; [|constructor]. apply (chunk_at_same_out d5 d6 c' _ _ C5 S56). lia. }
+    assert (T6 : table_at d6 pt (cs ++ [c'])).
+    { apply (table_at_frame d4 d6 pt _ (fun x => addr p <= x < addr p + tot' + 20 \/ addr dc <= x < addr dc + 20 + 24 * n)); auto.
+      - intros x Hx. rewrite S56, S45; auto; lia.
+      - rewrite lenZ_snoc. fold n. intros x Hx. lia. }
+    unfold Inv. cbn [h_n h_ty h_dc]. rewrite lenZ_snoc. fold n.
+    split; [lia|]. split; [exact C6|]. split.
+    { rewrite map_app. cbn [map]. apply pdisj_snoc; auto. }
+    split.
+    { apply Forall_app. split; [exact Dv|constructor; [rewrite Sz; exact M2|constructor]]. }
+    split; [auto|].
+    destruct cs as [|a [|b r]]; [unfold n in L2; cbn in L2; lia|unfold n in L2; cbn in L2; lia|].
+    cbn [app]. split; [exact T6|]. change (a :: b :: r ++ [c']) with ((a :: b :: r) ++ [c']).
+    rewrite map_app. apply Forall_app. split; [exact Dtc'|].
+    cbn [map]. constructor; [|constructor]. unfold disj, ext, text. cbn [fst snd]. lia.
+Qed.
+
+(* ------------------------------------------------------------------ ADF_Write_All_Data *)
+Lemma wspec_wdc size so n (data : option (list Z)) : 0 < size < 2 ^ 40 -> 0 <= so -> 0 < n -> so + n <= size ->
+  wspec (fun d2 p2 => write_data_chunk cf fa d2 p2 size so n data) size.
+Proof.
+  intros Hs Hso Hn Hle d2 p2 G A.
+  destruct (fresh_chunk d2 p2 size so n data G A Hs Hso Hn Hle) as (d3 & R & C & Sz & _ & S).
+  exists d3. auto.
+Qed.
+
+Lemma requests_unfold h d cs o : Inv h d cs -> (match o with WriteAll _ | WriteBlock _ _ _ | WriteStrided _ _ => True | _ => False end) ->
+  requests fa (mkSt h d) o =
+    if h_n h =? 0 then [total_bytes h + 20]
+    else if total_bytes h >? cap_of cs then
+           if h_n h =? 1 then [total_bytes h - cap_of cs + 20; 68]
+           else [total_bytes h - cap_of cs + 20; 8 + (2 * (h_n h + 1) + 1) * DPS]
+         else [].
+Proof.
+  intros I Ho. unfold requests. cbn [s_h s_d]. rewrite (chunks_of_inv _ _ _ I). destruct o; try contradiction; reflexivity.
+Qed.
+
+Lemma map_Some_app (a b : bytes) : map Some a ++ map Some b = map Some (a ++ b).
+Proof. now rewrite map_app. Qed.
+
+Lemma firstn_split_skipn {A} (l : list A) a b : firstn a l ++ firstn b (skipn a l) = firstn (a + b) l.
+Proof.
+  revert l. induction a as [|a IH]; intros l; [reflexivity|].
+  destruct l as [|x r]; [cbn [skipn]; rewrite !firstn_nil; reflexivity|].
+  cbn [Nat.add firstn skipn app]. f_equal. apply IH.
+Qed.
+
+Lemma phys_some cs : sizes_pos cs -> forall y, 0 <= y < cap_of cs -> exists a, phys cs y = Some a.
+Proof.
+  induction 1 as [|c r Hc Pr IH]; intros y Hy; [cbn in Hy; lia|]. rewrite cap_of_cons in Hy. cbn [phys].
+  destruct (Z.ltb_spec y (csize c)); [eauto|]. apply IH. lia.
+Qed.
+Lemma phys_app_l cs x : forall y a, phys cs y = Some a -> phys (cs ++ x) y = Some a.
+Proof.
+  induction cs as [|c r IH]; intros y a H; [discriminate|]. cbn [app phys] in *. destruct (y <? csize c); auto.
+Qed.
+
+Lemma write_all_ok h d cs al (data : list Z) : Inv h d cs -> dims_ok (h_dims h) = true -> total_bytes h <> 0 ->
+  total_bytes h <= lenZ data -> h_n h < 65535 ->
+  alloc_ok fa (mkSt h d) (WriteAll data) al = true ->
+  exists h' d' cs', write_all cf fa h d al data = (Ok h', d') /\ Inv h' d' cs' /\
+    h_ty h' = h_ty h /\ h_dims h' = h_dims h /\
+    lenZ cs' = (if lenZ cs =? 0 then 1 else if total_bytes h >? cap_of cs then lenZ cs + 1 else lenZ cs) /\
+    cap_of cs' = (if (lenZ cs =? 1) && (total_bytes h <=? cap_of cs) then total_bytes h
+                  else if lenZ cs =? 0 then total_bytes h
+                  else if total_bytes h >? cap_of cs then total_bytes h else cap_of cs) /\
+    lread d' cs' 0 (total_bytes h) = map Some (firstn (Z.to_nat (total_bytes h)) data).
+Proof.
+  intros I D T Hd Hn AO. destruct (total_bounds h D T) as (Z0 & Tb & Tm).
+  unfold alloc_ok in AO. cbn [s_h s_d] in AO. rewrite (live_extents_inv _ _ _ I), (requests_unfold _ _ _ _ I) in AO by exact Logic.I.
+  pose proof I as (N & C & PD & Dv & _ & M).
+  set (t := total_bytes h) in *. unfold write_all. fold t. unfold bytes in *. destruct (Z.eqb_spec t 0); [lia|].
+  destruct cs as [|c [|c2 r]].
+  - (* no data yet *)
+    change (lenZ []) with 0 in N. rewrite N in *. cbn [Z.eqb Z.geb Z.compare map app] in AO |- *.
+    destruct al as [|p al']; [discriminate|]. apply fresh_cons_inv in AO. destruct AO as [(Gp & Ap & _) _].
+    destruct (alloc_ok_step p al' (t + 20) d) as [R1 S1]; [unfold MAXSZ; lia|auto|].
+    unfold TAG_SIZE, DPS. replace (t + 4 + 4 + 12) with (t + 20) by ring. rewrite R1. cbn [bindR fst].
+    destruct (fresh_chunk (dclr d (addr p) (Z.to_nat (t + 20))) p t 0 t (Some data) Gp Ap Tb) as (d2 & R2 & C2 & Sz & H2 & _); try lia.
+    rewrite R2. cbn [bindR]. set (c := (p, pnorm (addr p + HDR + t))) in *.
+    exists (mkHdr (h_ty h) (h_dims h) 1 p), d2, [c]. split; [reflexivity|].
+    split; [apply (inv_single (h_ty h) (h_dims h) d2 c); auto; rewrite Sz; auto|].
+    cbn [h_ty h_dims cap_of fold_right]. rewrite Sz. change (lenZ []) with 0. change (lenZ [c]) with 1. cbn [Z.eqb andb].
+    split; [reflexivity|]. split; [reflexivity|]. split; [reflexivity|]. split; [lia|].
+    rewrite <- (lenZ_firstn_ge data t) at 1 by lia. apply holds_lread_first; [lia|rewrite lenZ_firstn_ge by lia; lia|].
+    exact H2.
+  - (* one chunk *)
+    change (lenZ [c]) with 1 in *. rewrite N in *. cbn [Z.eqb Pos.eqb Z.geb Z.compare Pos.compare Pos.compare_cont map app cap_of fold_right] in AO |- *.
+    rewrite Z.add_0_r in *. rewrite M. inversion C as [|? ? Hc _]; subst. inversion Dv as [|? ? Dvc _]; subst.
+    rewrite (one_chunk_size_ok d c Hc). cbn [bindO].
+    pose proof Hc as (_ & _ & Sc & _).
+    destruct (Z.gtb_spec t (csize c)) as [Grow|Fit].
+    + (* the data outgrow the chunk: second chunk and table *)
+      destruct (rewrite_chunk d c 0 (csize c) data Hc) as (d1 & R1 & C1 & H1 & F1); try lia.
+      rewrite R1. cbn [bindR].
+      assert (WS : wspec (fun d2 p2 => write_data_chunk cf fa d2 p2 (t - csize c) 0 (t - csize c) (Some (skipn (Z.to_nat (csize c)) data))) (t - csize c))
+        by (apply wspec_wdc; lia).
+      assert (Mt : (t - csize c) mod esz (h_ty h) = 0).
+      { apply Z.mod_divide; [lia|]. apply Z.divide_sub_r; apply Z.mod_divide; auto; lia. }
+      destruct (grow1_ok (h_ty h) (h_dims h) al d1 c (t - csize c) _
+                  (fun es pt d5 => (Ok (mkHdr (h_ty h) (h_dims h) 2 pt), d5)) C1 Z0 Dvc Mt ltac:(lia) WS AO)
+        as (p2 & pt & rest & d2 & d3 & d5 & Eal & Gp2 & Ap2 & RW & S12 & S23 & S35 & Dc & Dt1 & Dt2 & Ece & GT & I5 & Sz2).
+      unfold grow1_term in GT. rewrite GT.
+      set (c2 := (p2, pnorm (addr p2 + HDR + (t - csize c)))) in *.
+      exists (mkHdr (h_ty h) (h_dims h) 2 pt), d5, [c; c2]. split; [reflexivity|]. split; [exact I5|].
+      cbn [h_ty h_dims cap_of fold_right]. change (lenZ [c; c2]) with 2. rewrite Sz2.
+      destruct (Z.leb_spec t (csize c)); [lia|]. cbn [andb].
+      split; [reflexivity|]. split; [reflexivity|]. split; [reflexivity|]. split; [lia|].
+      (* what was written *)
+      destruct (fresh_chunk d2 p2 (t - csize c) 0 (t - csize c) (Some (skipn (Z.to_nat (csize c)) data)) Gp2 Ap2) as (d3' & R3' & _ & _ & H3 & _); try lia.
+      rewrite RW in R3'. inversion R3'; subst d3'. clear R3'.
+      replace t with (csize c + (t - csize c)) at 1 by ring. rewrite lread_app by lia. rewrite Z.add_0_l.
+      rewrite (lread_skip d5 c [c2] (csize c)) by lia. rewrite Z.sub_diag.
+      pose proof (csize_addr c) as Ecs. unfold disj, ext, text in Dc, Dt1, Dt2. cbn [fst snd] in Dc, Dt1, Dt2. unfold HDR in *.
+      assert (Es2 : cstart c2 = addr p2) by reflexivity.
+      assert (H1' : holds d5 (cstart c + 16 + 0) (firstn (Z.to_nat (csize c)) data)).
+      { intros i Hi. rewrite S35, S23, S12; [apply H1; auto| | |]; rewrite firstn_length in Hi; lia. }
+      assert (H3' : holds d5 (addr p2 + 16 + 0) (firstn (Z.to_nat (t - csize c)) (skipn (Z.to_nat (csize c)) data))).
+      { intros i Hi. rewrite S35; [apply H3; auto|]. rewrite firstn_length in Hi. change (cstart c2) with (addr p2) in *. lia. }
+      rewrite <- (lenZ_firstn_ge data (csize c)) at 1 by lia.
+      rewrite holds_lread_first; [|lia|rewrite lenZ_firstn_ge by lia; lia|exact H1'].
+      assert (L3 : lenZ (firstn (Z.to_nat (t - csize c)) (skipn (Z.to_nat (csize c)) data)) = t - csize c).
+      { apply lenZ_firstn_ge. rewrite lenZ_skipn by lia. lia. }
+      rewrite <- L3 at 1. rewrite holds_lread_first; [|lia|rewrite L3, Sz2; lia|exact H3'].
+      rewrite map_Some_app. f_equal. rewrite firstn_split_skipn. f_equal. lia.
+    + (* the chunk is rewritten with the size of the data *)
+      destruct (wdc_some d (fst c) t 0 t data) as (d1 & R1 & A1 & A2 & A3 & A4 & A5); try lia.
+      { apply Hc. }
+      rewrite R1. cbn [bindR]. fold (cstart c) in *.
+      set (c1 := (fst c, pnorm (cstart c + HDR + t))).
+      assert (Ec1 : cend c1 = cstart c + HDR + t) by (unfold cend, c1; cbn [snd]; apply addr_pnorm).
+      assert (Es1 : csize c1 = t) by (rewrite csize_addr, Ec1; unfold cstart, c1; cbn [fst]; ring).
+      pose proof Hc as (Gc1 & Gc2 & _). pose proof (gp_addr _ Gc2) as Be. pose proof (gp_addr _ Gc1) as Bs.
+      pose proof (csize_addr c) as Ecs. unfold HDR in *.
+      assert (Gn : gp (pnorm (cstart c + 16 + t))) by (apply gp_pnorm; unfold cend, cstart in *; lia).
+      assert (C1 : chunk_at d1 c1).
+      { unfold chunk_at. rewrite Es1, Ec1. unfold cstart, c1. cbn [fst snd]. fold (cstart c).
+        split; [exact Gc1|]. split; [exact Gn|]. auto 10. }
+      exists h, d1, [c1]. split; [reflexivity|]. split.
+      { replace h with (mkHdr (h_ty h) (h_dims h) 1 (fst c1)) by (destruct h; cbn in *; subst; reflexivity).
+        apply inv_single; auto. rewrite Es1. exact Tm. }
+      cbn [cap_of fold_right]. rewrite Es1. change (lenZ [c1]) with 1. destruct (Z.leb_spec t (csize c)); [|lia]. cbn [andb].
+      split; [reflexivity|]. split; [reflexivity|]. split; [reflexivity|]. split; [lia|].
+      rewrite <- (lenZ_firstn_ge data t) at 1 by lia. apply holds_lread_first; [lia|rewrite lenZ_firstn_ge by lia; lia|].
+      unfold cstart, c1. cbn [fst]. exact A4.
+  - (* several chunks *)
+    destruct M as [Tb0 TD]. pose proof (lenZ_nonneg r) as Hr.
+    assert (L : lenZ (c :: c2 :: r) = lenZ r + 2) by (rewrite !lenZ_cons; ring).
+    remember (c :: c2 :: r) as cs eqn:Ecs0.
+    replace (h_n h >=? 2) with true in AO by (symmetry; apply Z.geb_le; lia).
+    replace (h_n h =? 0) with false in AO by (symmetry; apply Z.eqb_neq; lia).
+    replace (h_n h =? 1) with false in AO by (symmetry; apply Z.eqb_neq; lia).
+    destruct (Z.eqb_spec (h_n h) 0); [lia|]. destruct (Z.eqb_spec (h_n h) 1); [lia|].
+    rewrite (read_table_ok d (h_dc h) cs) by (auto; lia). cbn [bindO].
+    replace (firstn (Z.to_nat (h_n h)) cs) with cs by (rewrite N; symmetry; apply firstn_lenZ).
+    destruct (wall_loop_ok cs d data t C PD ltac:(lia) Hd) as (d1 & R1 & C1 & F1 & L1).
+    rewrite R1. cbn [bindR fst snd].
+    assert (Pc : 0 <= cap_of cs) by (apply sizes_pos_cap, (Forall_chunk_sizes d); auto).
+    assert (T1 : table_at d1 (h_dc h) cs).
+    { apply (table_at_frame d d1 _ _ (in_exts cs) Tb0 F1). intros x Hx (c' & I' & Hx').
+      rewrite Forall_forall in TD. specialize (TD (ext c') (in_map ext _ _ I')).
+      unfold disj, text, ext, in_ext in *. cbn [fst snd] in *. lia. }
+    destruct (Z.gtb_spec (t - Z.min t (cap_of cs)) 0) as [Grow|Fit].
+    + (* a further chunk *)
+      assert (Et : t - Z.min t (cap_of cs) = t - cap_of cs) by lia. rewrite Et in *.
+      replace (t >? cap_of cs) with true in AO by (symmetry; apply Z.gtb_lt; lia).
+      assert (Mt : (t - cap_of cs) mod esz (h_ty h) = 0).
+      { apply Z.mod_divide; [lia|]. apply Z.divide_sub_r; [apply Z.mod_divide; auto; lia|apply divide_cap; auto]. }
+      set (data' := skipn (Z.to_nat (Z.min t (cap_of cs))) data) in *.
+      assert (WS : wspec (fun d2 p2 => write_data_chunk cf fa d2 p2 (t - cap_of cs) 0 (t - cap_of cs) (Some data')) (t - cap_of cs))
+        by (apply wspec_wdc; lia).
+      destruct (grown_ok al d1 h cs (t - cap_of cs) _ (fun cs' pt d6 => (Ok (mkHdr (h_ty h) (h_dims h) (h_n h + 1) pt), d6))
+                  N ltac:(lia) ltac:(lia) C1 PD T1 TD Z0 Dv Mt ltac:(lia) WS)
+        as (p & pt & rest & d4 & d5 & d6 & Eal & Gp & Ap & RW & Sz & F14 & S45 & S56 & Dc' & Do' & Dtc' & Ece & GT & I6).
+      { rewrite <- N. unfold DPS in AO. exact AO. }
+      unfold grown_term in GT. rewrite GT. set (c' := (p, pnorm (addr p + HDR + (t - cap_of cs)))) in *.
+      exists (mkHdr (h_ty h) (h_dims h) (h_n h + 1) pt), d6, (cs ++ [c']). split; [reflexivity|]. split; [exact I6|].
+      cbn [h_ty h_dims]. rewrite lenZ_snoc, cap_of_app. cbn [cap_of fold_right]. rewrite Sz, L.
+      destruct (Z.eqb_spec (lenZ r + 2) 1); [lia|]. destruct (Z.eqb_spec (lenZ r + 2) 0); [lia|]. cbn [andb].
+      destruct (Z.gtb_spec t (cap_of cs)); [|lia].
+      split; [reflexivity|]. split; [reflexivity|]. split; [reflexivity|]. split; [lia|].
+      (* what was written *)
+      destruct (fresh_chunk d4 p (t - cap_of cs) 0 (t - cap_of cs) (Some data') Gp Ap) as (d5' & R5' & _ & _ & H5 & _); try lia.
+      rewrite RW in R5'. inversion R5'; subst d5'. clear R5'.
+      replace t with (cap_of cs + (t - cap_of cs)) at 1 by ring. rewrite lread_app by lia. rewrite Z.add_0_l.
+      assert (Psz : sizes_pos cs) by (apply (Forall_chunk_sizes d); auto).
+      (* first part: unchanged since the loop *)
+      assert (E1 : lread d6 (cs ++ [c']) 0 (cap_of cs) = lread d1 cs 0 (cap_of cs)).
+      { unfold lread, zrange. apply map_zr_ext. intros y Hy. unfold absb. destruct (Z.ltb_spec y 0); auto.
+        rewrite Z2Nat.id in Hy by lia.
+        destruct (phys_some cs Psz y ltac:(lia)) as (a & Pa).
+        pose proof (phys_app_l cs [c'] y a Pa) as Pa'.
+        rewrite Pa, Pa'. destruct (phys_in cs y a Psz H0 Pa) as (c0 & I0 & B0).
+        rewrite Forall_forall in Dc', TD, Dtc'. specialize (Dc' (ext c0) (in_map ext _ _ I0)).
+        specialize (TD (ext c0) (in_map ext _ _ I0)). specialize (Dtc' (ext c0) (in_map ext _ _ I0)).
+        unfold disj, ext, text in *. cbn [fst snd] in *. change (cstart c') with (addr p) in *. unfold HDR in *.
+        rewrite S56, S45, F14; auto; try lia. }
+      rewrite E1. rewrite Z.min_r in L1 by lia. rewrite L1.
+      (* second part: the new chunk *)
+      assert (E2 : lread d6 (cs ++ [c']) (cap_of cs) (t - cap_of cs) = drd d6 (cstart c' + HDR + 0) (Z.to_nat (t - cap_of cs))).
+      { rewrite (lread_phys d6 cs c' [] (cap_of cs) (t - cap_of cs)); auto; try lia. do 2 f_equal. lia. }
+      rewrite E2.
+      assert (H6 : holds d6 (addr p + HDR + 0) (firstn (Z.to_nat (t - cap_of cs)) data')).
+      { intros i Hi. rewrite S56; [apply H5; auto|]. rewrite firstn_length in Hi.
+        unfold disj, ext, text in Do'. cbn [fst snd] in Do'. change (cstart c') with (addr p) in *. unfold HDR in *. lia. }
+      assert (L6 : lenZ (firstn (Z.to_nat (t - cap_of cs)) data') = t - cap_of cs).
+      { apply lenZ_firstn_ge. unfold data'. rewrite Z.min_r by lia. rewrite lenZ_skipn by lia. lia. }
+      apply holds_drd in H6. unfold lenZ in L6. change (cstart c') with (addr p).
+      replace (Z.to_nat (t - cap_of cs)) with (length (firstn (Z.to_nat (t - cap_of cs)) data')) at 1 by lia.
+      rewrite H6. rewrite map_Some_app. f_equal. unfold data'. rewrite Z.min_r by lia.
+      rewrite firstn_split_skipn. f_equal. lia.
+    + (* the chunks hold the data *)
+      exists h, d1, cs. split; [reflexivity|].
+      assert (I1 : Inv h d1 cs).
+      { unfold Inv. split; [exact N|]. split; [exact C1|]. split; [exact PD|]. split; [exact Dv|]. split; [auto|].
+        rewrite Ecs0. rewrite <- Ecs0. split; [exact T1|exact TD]. }
+      split; [exact I1|]. rewrite L.
+      destruct (Z.eqb_spec (lenZ r + 2) 1); [lia|]. destruct (Z.eqb_spec (lenZ r + 2) 0); [lia|]. cbn [andb].
+      destruct (Z.gtb_spec t (cap_of cs)); [lia|].
+      split; [reflexivity|]. split; [reflexivity|]. split; [reflexivity|]. split; [reflexivity|].
+      rewrite Z.min_l in L1 by lia. exact L1.
+Qed.
+
+(* ------------------------------------------------------------------ ADF_Put_Dimension_Information *)
+Lemma free_all_ok : forall cs d, Forall (chunk_at d) cs -> pdisj (map ext cs) ->
+  exists d', free_all fa cs d = (Ok tt, d') /\ frame d d' (in_exts cs).
+Proof.
+  induction cs as [|c r IH]; intros d C PD.
+  - exists d. split; [reflexivity|apply frame_refl].
+  - inversion C as [|? ? Hc Cr]; subst. pose proof PD as PDall. destruct PD as [PD1 PDr].
+    cbn [free_all]. destruct (file_free_chunk d c Hc) as (d1 & R1 & S1). rewrite R1. cbn [bindR].
+    assert (Cr1 : Forall (chunk_at d1) r).
+    { rewrite Forall_forall in *. intros c' I'. specialize (Cr c' I').
+      apply (chunk_at_frame d d1 c' (in_ext c)); auto.
+      - intros x Hx. apply S1. unfold in_ext in Hx. lia.
+      - intros x Hx Hx'. exact (pdisj_in c r PDall c' I' x Hx' Hx). }
+    destruct (IH d1 Cr1 PDr) as (d' & R' & F'). exists d'. split; [exact R'|].
+    eapply frame_trans; [apply (same_out_frame _ _ _ _ S1)|exact F'| |]; intros x Hx; apply in_exts_cons; auto.
+Qed.
+
+Lemma dims_ok_checks dims : dims_ok dims = true -> (12 <? lenZ dims) = false /\ existsb (fun v => v <=? 0) dims = false.
+Proof.
+  unfold dims_ok. intros D. apply andb_true_iff in D. destruct D as [D D3]. apply andb_true_iff in D. destruct D as [D1 D2].
+  split; [destruct (Z.leb_spec (lenZ dims) 12); [|discriminate]; apply Z.ltb_ge; lia|].
+  apply not_true_is_false. intros E. apply existsb_exists in E. destruct E as (v & Iv & Hv).
+  rewrite forallb_forall in D2. specialize (D2 v Iv). destruct (Z.leb_spec 1 v); [|discriminate]. destruct (Z.leb_spec v 0); [lia|discriminate].
+Qed.
+
+Lemma inv_nil ty dims dc d : Inv (mkHdr ty dims 0 dc) d [].
+Proof. unfold Inv. cbn. repeat split; auto; try constructor. intros H; congruence. Qed.
+
+Lemma put_dims_ok h d cs ty dims : Inv h d cs -> dims_ok dims = true ->
+  if dtype_eqb (h_ty h) ty && (lenZ dims =? lenZ (h_dims h))
+  then put_dims fa h d ty dims = (Ok (mkHdr (h_ty h) dims (h_n h) (h_dc h)), d)
+  else exists d', put_dims fa h d ty dims = (Ok (mkHdr ty dims 0 blank_ptr), d').
+Proof.
+  intros I D. destruct (dims_ok_checks dims D) as [D1 D2]. unfold put_dims. rewrite D1, D2.
+  destruct (dtype_eqb (h_ty h) ty && (lenZ dims =? lenZ (h_dims h))); [reflexivity|].
+  pose proof I as (N & C & PD & Dv & _ & M). unfold delete_data.
+  destruct cs as [|c [|c2 r]].
+  - rewrite N. cbn [lenZ length Z.of_nat Z.eqb]. eexists. reflexivity.
+  - rewrite N. change (lenZ [c]) with 1. cbn [Z.eqb Pos.eqb]. rewrite M. inversion C as [|? ? Hc _]; subst.
+    destruct (file_free_chunk d c Hc) as (d1 & R1 & _). rewrite R1. eexists. reflexivity.
+  - destruct M as [Tb TD]. pose proof (lenZ_nonneg r).
+    assert (L : lenZ (c :: c2 :: r) = lenZ r + 2) by (rewrite !lenZ_cons; ring).
+    remember (c :: c2 :: r) as cs eqn:Ecs0.
+    destruct (Z.eqb_spec (h_n h) 0); [lia|]. destruct (Z.eqb_spec (h_n h) 1); [lia|].
+    rewrite (read_table_ok d (h_dc h) cs) by (auto; lia). cbn [bindO].
+    replace (firstn (Z.to_nat (h_n h)) cs) with cs by (rewrite N; symmetry; apply firstn_lenZ).
+    destruct (free_all_ok cs d C PD) as (d1 & R1 & F1). rewrite R1. cbn [bindR].
+    assert (T1 : table_at d1 (h_dc h) cs).
+    { apply (table_at_frame d d1 _ _ (in_exts cs) Tb F1). intros x Hx (c' & I' & Hx').
+      rewrite Forall_forall in TD. specialize (TD (ext c') (in_map ext _ _ I')).
+      unfold disj, text, ext, in_ext in *. cbn [fst snd] in *. lia. }
+    destruct (file_free_table d1 (h_dc h) cs T1) as (d2 & R2 & _). rewrite R2. eexists. reflexivity.
+Qed.
+
+(* ------------------------------------------------------------------ writing one element through the chunk list *)
+Lemma pdisj_forall l : pdisj l -> forall i j, (i < j < length l)%nat -> disj (nth i l (0, 0)) (nth j l (0, 0)).
+Proof.
+  induction l as [|a r IH]; intros P i j H; [simpl in H; lia|]. destruct P as [P1 P2].
+  destruct i as [|i]; destruct j as [|j]; try lia; cbn [nth].
+  - rewrite Forall_forall in P1. apply P1. apply nth_In. simpl in H. lia.
+  - apply IH; auto. simpl in H. lia.
+Qed.
+
+Lemma pdisj_mid pre c rest : pdisj (map ext (pre ++ c :: rest)) ->
+  forall c', In c' pre \/ In c' rest -> disj (ext c) (ext c').
+Proof.
+  intros P c' H. rewrite map_app in P. cbn [map] in P.
+  set (l := map ext pre ++ ext c :: map ext rest) in *.
+  assert (Lc : nth (length pre) l (0, 0) = ext c).
+  { unfold l. rewrite app_nth2 by (rewrite map_length; lia). rewrite map_length, Nat.sub_diag. reflexivity. }
+  destruct H as [H|H].
+  - destruct (In_nth _ _ c H) as (i & Hi & Ei).
+    assert (Li : nth i l (0, 0) = ext c').
+    { unfold l. rewrite app_nth1 by (rewrite map_length; lia).
+      rewrite nth_indep with (d' := ext c) by (rewrite map_length; lia). rewrite map_nth. now rewrite Ei. }
+    apply disj_sym. rewrite <- Lc, <- Li. apply pdisj_forall; auto. unfold l. rewrite app_length, map_length. simpl. lia.
+  - destruct (In_nth _ _ c H) as (j & Hj & Ej).
+    assert (Lj : nth (length pre + S j) l (0, 0) = ext c').
+    { unfold l. rewrite app_nth2 by (rewrite map_length; lia). rewrite map_length.
+      replace (length pre + S j - length pre)%nat with (S j) by lia. cbn [nth].
+      rewrite nth_indep with (d' := ext c) by (rewrite map_length; lia). rewrite map_nth. now rewrite Ej. }
+    rewrite <- Lc, <- Lj. apply pdisj_forall; auto. unfold l. rewrite app_length, map_length. cbn [length]. rewrite map_length. lia.
+Qed.
+
+Lemma phys_post pre : forall c rest x, sizes_pos pre -> 0 < csize c -> cap_of pre + csize c <= x ->
+  phys (pre ++ c :: rest) x = phys rest (x - cap_of pre - csize c).
+Proof.
+  induction pre as [|p r IH]; intros c rest x P Hc H.
+  - cbn [app phys cap_of fold_right] in *. destruct (Z.ltb_spec x (csize c)); [lia|]. f_equal. lia.
+  - inversion P as [|? ? Hp Pr]; subst. pose proof (sizes_pos_cap _ Pr). rewrite cap_of_cons in *.
+    cbn [app phys]. destruct (Z.ltb_spec x (csize p)); [lia|]. rewrite IH by (auto; lia). f_equal. lia.
+Qed.
+
+(* one element of fb bytes stored at logical offset rel, inside chunk c of cs = pre ++ c :: rest *)
+Lemma elem_write d pre c rest rel (bs : list Z) :
+  let cs := pre ++ c :: rest in
+  Forall (chunk_at d) cs -> pdisj (map ext cs) -> cap_of pre <= rel -> rel + lenZ bs <= cap_of pre + csize c ->
+  let a := cstart c + HDR + (rel - cap_of pre) in
+  let d1 := dput d a bs in
+  Forall (chunk_at d1) cs /\
+  frame d d1 (fun y => cstart c + HDR <= y < cend c) /\
+  (forall x, 0 <= x -> absb d1 cs x = over (absb d cs) rel bs x).
+Proof.
+  intros cs C PD Hr Hle a d1. pose proof (lenZ_nonneg bs) as Hb.
+  assert (Psz : sizes_pos cs) by (apply (Forall_chunk_sizes d); auto).
+  assert (Ppre : sizes_pos pre) by (unfold sizes_pos, cs in *; apply Forall_app in Psz; tauto).
+  assert (Hc : chunk_at d c) by (rewrite Forall_forall in C; apply C; unfold cs; apply in_app_mid).
+  pose proof Hc as (G1 & _ & Sc & _). pose proof (gp_addr _ G1) as Ba. pose proof (csize_addr c) as Ecs.
+  pose proof (sizes_pos_cap _ Ppre) as Hpre. unfold HDR in *.
+  assert (Ha : 0 <= a) by (unfold a, cstart; lia).
+  assert (F : frame d d1 (fun y => cstart c + 16 <= y < cend c)).
+  { intros y Hy. unfold d1. rewrite dget_dput by auto.
+    destruct (Z.leb_spec a y), (Z.ltb_spec y (a + lenZ bs)); cbn [andb]; auto. exfalso. apply Hy. unfold a in *. lia. }
+  split; [|split; [exact F|]].
+  - rewrite Forall_forall in *. intros c' I'. apply (chunk_at_frame d d1 c' _ (C c' I') F).
+    intros x Hx Hx'. unfold cs in I'. apply in_app_or in I'. destruct I' as [I'|[E|I']].
+    + pose proof (pdisj_mid pre c rest PD c' (or_introl I')) as Dj. unfold disj, ext, in_ext in *. cbn [fst snd] in *. lia.
+    + subst c'. pose proof (C c (in_app_mid pre c rest)) as (_ & _ & _ & T1 & P1 & T2). unfold in_ext in Hx.
+      (* inside the chunk itself: the written bytes are data bytes, not the tags / pointer *)
+      exfalso. clear -Hx Hx' Ecs. lia.
+    + pose proof (pdisj_mid pre c rest PD c' (or_intror I')) as Dj. unfold disj, ext, in_ext in *. cbn [fst snd] in *. lia.
+  - intros x Hx. unfold over, absb. destruct (Z.ltb_spec x 0); [lia|].
+    destruct (Z.leb_spec rel x), (Z.ltb_spec x (rel + lenZ bs)); cbn [andb].
+    + (* x is one of the bytes of the element *)
+      unfold cs. rewrite (phys_app pre c rest x) by (auto; lia). unfold d1. rewrite dget_dput by auto.
+      unfold HDR, a. destruct (Z.leb_spec (cstart c + 16 + (rel - cap_of pre)) (cstart c + 16 + (x - cap_of pre))); [|lia].
+      destruct (Z.ltb_spec (cstart c + 16 + (x - cap_of pre)) (cstart c + 16 + (rel - cap_of pre) + lenZ bs)); [|lia].
+      cbn [andb]. do 2 f_equal. lia.
+    + destruct (phys cs x) as [b|] eqn:E; auto. apply F. intros Hb'.
+      destruct (Z.lt_ge_cases x (cap_of pre + csize c)).
+      * unfold cs in E. rewrite (phys_app pre c rest x) in E by (auto; lia). inversion E; subst b.
+        unfold d1 in *. clear F. unfold HDR in *. exfalso. lia.
+      * unfold cs in E. rewrite (phys_post pre c rest x) in E by (auto; lia).
+        assert (Prest : sizes_pos rest).
+        { unfold sizes_pos, cs in *. apply Forall_app in Psz. destruct Psz as [_ Q]. inversion Q; auto. }
+        destruct (phys_in rest _ b Prest ltac:(lia) E) as (c' & I' & B').
+        pose proof (pdisj_mid pre c rest PD c' (or_intror I')) as Dj. unfold disj, ext in Dj. cbn [fst snd] in Dj. unfold HDR in *. lia.
+    + destruct (phys cs x) as [b|] eqn:E; auto. apply F. intros Hb'.
+      destruct (Z.lt_ge_cases x (cap_of pre)).
+      * assert (E' : phys pre x = Some b).
+        { destruct (phys_some pre Ppre x ltac:(lia)) as (b' & Eb'). rewrite (phys_app_l pre (c :: rest) x b' Eb') in E. congruence. }
+        destruct (phys_in pre _ b Ppre ltac:(lia) E') as (c' & I' & B').
+        pose proof (pdisj_mid pre c rest PD c' (or_introl I')) as Dj. unfold disj, ext in Dj. cbn [fst snd] in Dj. unfold HDR in *. lia.
+      * unfold cs in E. rewrite (phys_app pre c rest x) in E by (auto; lia). inversion E; subst b. unfold HDR in *. lia.
+    + lia.
 Qed.
